@@ -108,11 +108,11 @@ theorem fut_step (m : Model) (w : FutW) (s : FutS) (e : Ev) (hok : okEv m e) (h 
         | code => simp [okEv] at hok
         | fixed =>
           simp [FutW.step, FutW.emit, futStep, Hist.push, FutR, fobs, futError, futComplete,
-            Chan.send, Chan.closeTx, Chan.wake, lvOf_error]
+            Chan.trySend, Chan.closeTx, Chan.wake, lvOf_error]
           cases pk <;> simp
       | complete =>
         simp [FutW.step, FutW.emit, futStep, Hist.push, FutR, fobs, futComplete,
-            Chan.send, Chan.closeTx, Chan.wake]
+            Chan.trySend, Chan.closeTx, Chan.wake]
         cases pk <;> simp [lvOf_complete]
     | poll =>
       simp [FutW.step, futPoll, Chan.pollNext, Chan.nextMessage, futStep, FutR, fobs]
@@ -165,11 +165,11 @@ theorem cf_step (m : Model) (w : CFW) (s : FutS) (e : Ev) (hok : okEv m e) (h : 
         | code => simp [okEv] at hok
         | fixed =>
           simp [CFW.step, CFW.emit, futStep, Hist.push, CFR, fobs, futError, futComplete,
-            Chan.send, Chan.closeTx, Chan.wake]
+            Chan.trySend, Chan.closeTx, Chan.wake]
           cases pk <;> simp [collectResult, sendObservableValue]
       | complete =>
         simp [CFW.step, CFW.emit, futStep, Hist.push, CFR, fobs, futComplete,
-            Chan.send, Chan.closeTx, Chan.wake]
+            Chan.trySend, Chan.closeTx, Chan.wake]
         cases pk <;> simp [collectResult, sendObservableValue]
     | poll =>
       simp [CFW.step, futPoll, Chan.pollNext, Chan.nextMessage, futStep, CFR, fobs]
@@ -226,10 +226,10 @@ theorem str_step (m : Model) (w : StrW) (s : StrS) (e : Ev) (hok : okEv m e) (h 
         cases m with
         | code => simp [okEv] at hok
         | fixed =>
-          simp [StrW.step, StrW.emit, strStep, StrR, sobs, Chan.send, Chan.wake, Chan.closeTx]
+          simp [StrW.step, StrW.emit, strStep, StrR, sobs, Chan.trySend, Chan.wake, Chan.closeTx]
           cases pk <;> simp
       | complete =>
-        simp [StrW.step, StrW.emit, strStep, StrR, sobs, Chan.send, Chan.wake, Chan.closeTx]
+        simp [StrW.step, StrW.emit, strStep, StrR, sobs, Chan.trySend, Chan.wake, Chan.closeTx]
         cases pk <;> simp
     | poll =>
       cases fr with
